@@ -11,6 +11,7 @@ class Path:
         self.result = result
         self.exc = exc
         self.decisions = [d[0] for d in ctx.decisions[: ctx.ptr]]
+        self.pruned = False
 
     @property
     def tag(self):
@@ -56,6 +57,13 @@ def explore(run, expected_exceptions=(), max_paths=20000, feas_timeout_ms=4000, 
         st.feas_unknown += ctx.feas_unknown
         if pruned:
             st.pruned += 1
+            if ctx.safety:
+                # the path condition became unsatisfiable AFTER some safety conditions had been
+                # asserted (assert-then-assume): e.g. a divisor that is identically zero makes the
+                # rest of the path infeasible.  Those assertions are still obligations.
+                pp = Path(-1, ctx, None, None)
+                pp.pruned = True
+                yield pp
         else:
             st.paths += 1
             yield Path(n, ctx, res, exc)
